@@ -90,6 +90,11 @@ def glob_line(host='6d79686f7374', icon='none', fname='none', hwid='-', hostrep=
     return 'glob host=%s hostrep=%s icon=%s fname=%s hwid=%s' % (host, hostrep, icon, fname, hwid)
 
 
+def vlan(f, tci=0x0064, tpid='8100'):
+    """the frame as a trunk port / a VLAN-unaware tap delivers it: an 802.1Q (or 802.1ad / legacy QinQ) tag behind the two addresses"""
+    return f if f == '-' or len(f) < 24 else f[:24] + tpid + '%04x' % (tci & 0xffff) + f[24:]
+
+
 def rand_mac(rng):
     return rng.choice(STATIONS + NEAR + HIGH) if rng.random() < 0.7 else ''.join('%02x' % rng.randrange(256) for _ in range(6))
 
